@@ -7,7 +7,9 @@ import (
 	"fmt"
 	"os"
 	"sort"
+	"strconv"
 	"strings"
+	"time"
 	"unsafe"
 
 	quic "github.com/refraction-networking/uquic"
@@ -420,6 +422,35 @@ func fsResolvePeeks(ops []fsOp) {
 	}
 }
 
+// c03Watchdog runs one case in its own goroutine with a real-time deadline: Peek / Pop / Read
+// contain loops that a defect can turn into an endless spin (for ReceiveStream while holding the
+// stream mutex). On expiry the case's op list is reported as MONFAIL <unit>/hang and the unit stops
+// (the spinning goroutine cannot be killed); the cases emitted so far are still replayed.
+func c03Watchdog(w *bufio.Writer, unit string, desc func() string, f func()) {
+	limit := 5 * time.Second
+	if ms, err := strconv.Atoi(os.Getenv("VERIF_HANG_MS")); err == nil && ms > 0 {
+		limit = time.Duration(ms) * time.Millisecond
+	}
+	done := make(chan struct{})
+	go func() {
+		defer close(done)
+		defer func() {
+			if r := recover(); r != nil {
+				fmt.Fprintf(w, "MONFAIL\t%s/panic\tpanic: %v\t%s\n", unit, r, desc())
+			}
+		}()
+		f()
+	}()
+	select {
+	case <-done:
+	case <-time.After(limit):
+		fmt.Fprintf(w, "MONFAIL\t%s/hang\ta call did not return within %v (endless loop in Peek/Pop/Read?)\t%s\n", unit, limit, desc())
+		fmt.Fprintf(w, "INFO\t%s: unit stopped after a hang; remaining cases skipped\n", unit)
+		w.Flush()
+		os.Exit(0)
+	}
+}
+
 func runFrameSorter(w *bufio.Writer, seed uint64, n int, _ []string) {
 	r := u.NewRng(seed)
 	dist := map[string]int{}
@@ -430,7 +461,9 @@ func runFrameSorter(w *bufio.Writer, seed uint64, n int, _ []string) {
 				ops[i].off = 0
 			}
 		}
-		term, nt := fsRun(w, ops, limit)
+		var term string
+		var nt bool
+		c03Watchdog(w, "framesorter", func() string { return fsOpsString(ops) }, func() { term, nt = fsRun(w, ops, limit) })
 		if term == "" {
 			return
 		}
@@ -441,6 +474,26 @@ func runFrameSorter(w *bufio.Writer, seed uint64, n int, _ []string) {
 		fmt.Fprintf(w, "CASE %d %s\n", nti, term)
 		dist[bucket]++
 		dist[fmt.Sprintf("len%02d", len(ops)/4*4)]++
+	}
+	// (0) fixed table, on every seed: Peek from the read position across >= 4 separate queue entries
+	// (equal and unequal sizes, complete / partial last entry / one byte too many), before and after a Pop
+	for _, sizes := range [][]int64{{64, 64, 64, 64}, {1, 4, 43, 64, 127}, {129, 1, 128, 4, 1000}, {4, 4, 4, 4, 4, 4}} {
+		var ops []fsOp
+		bounds := []int64{0}
+		for _, sz := range sizes {
+			bounds = append(bounds, bounds[len(bounds)-1]+sz)
+		}
+		for i := len(sizes) - 1; i >= 0; i-- { // pushed back to front: the entries stay separate
+			ops = append(ops, fsOp{kind: 0, off: bounds[i], n: sizes[i]})
+		}
+		total := bounds[len(sizes)]
+		for k := 2; k <= len(sizes); k++ {
+			ops = append(ops, fsOp{kind: 2, off: 0, n: bounds[k]})
+		}
+		ops = append(ops, fsOp{kind: 2, off: 0, n: total - 1}, fsOp{kind: 2, off: 0, n: total + 1})
+		ops = append(ops, fsOp{kind: 1})
+		ops = append(ops, fsOp{kind: 2, off: bounds[1], n: total - bounds[1]}, fsOp{kind: 2, off: bounds[1], n: bounds[len(sizes)-1] - bounds[1] + 1})
+		emit(ops, total+1, "table-peek")
 	}
 	// (a) exhaustive: every sequence of <= L ops over a small lattice (all intervals + pop)
 	exh := func(cells []int64, L int, bucket string) {
